@@ -25,6 +25,7 @@ RULES_DOC = dict(common.SHARED_DOC)
 RULES_DOC["R6"] = "config getters: each out-parameter of ABT_{sched,pool}_config_get is written whenever the key is found and that out-parameter is non-NULL, independent of the other out-parameter (sibling agreement between the two getters)"
 RULES_DOC["R7"] = "every load_env_<T> call whose bound is one of the ABTD_ENV_*_MAX type limits uses the limit of its own type <T> (a 64-bit setting is not clamped with the 32-bit maximum)"
 RULES_DOC["R8"] = "roundup_pow2_<T> shifts over all bits of its own type: the loop bound is 8*sizeof(T)-1 for the T it returns (a size_t value above 2^31 is not rounded with the 32-bit bound)"
+RULES_DOC["R10"] = "ABTU_hashtable_set appends at the tail of a collision chain: the p_next link it writes belongs to the element whose p_next was tested (NULL) on the way to the store -- writing the head's link instead drops every element behind the head once three keys collide"
 RULES_DOC["R9"] = "ABT_{sched,pool}_config_set changes the map only after the new element was built: on every path the deletion / replacement of an entry follows the successful typed construction, and an error return has not touched the map"
 RULES_DOC.update({
     "R1": "load_env_*: every return is max(min_val, min(max_val, X)), X in {parsed value, default}; parse error -> default; getenv / ABTU_ato* call sites confined",
@@ -300,6 +301,29 @@ def rule_R3_R4(P, rep):
                     consts.add(int(lab[8:]))
         rep.ob("R3", "%s compares with the limits of its result type" % fn, consts == set(limits[fn]), "compares with %s" % sorted(consts, key=str),
                loc=F.file, site="%s/limits" % fn)
+        # ... and compares the whole unsigned accumulator: a cast of the 64-bit magnitude to a signed or narrower type
+        # inside the range test lets 2^63.. (everything atoi_impl saturates to) pass as "small"
+        for B in F.blocks.values():
+            if B.tc is None:
+                continue
+            atom = cfg.cond_atom(F, B.tc)[0]
+            r = cond(canon.cond(F, atom)[0])
+            lab = r[0] if isinstance(r, tuple) else r
+            if not (lab and lab.startswith("exceeds:")):
+                continue
+            an = F.nodes[F.strip(atom)]
+            bad = []
+            for side in (an.get("lh"), an.get("rh")):
+                j = side
+                casts = []
+                while j is not None and j >= 0 and F.nodes[j].get("k") in ("cast", "load"):
+                    if F.nodes[j].get("k") == "cast":
+                        casts.append(F.nodes[j].get("t", ""))
+                    j = F.nodes[j]["e"]
+                if j is not None and j >= 0 and F.nodes[j].get("k") == "ref" and F.nodes[j].get("n") == VAL:
+                    bad = [t for t in casts if t.strip() not in ("uint64_t", "size_t", "unsigned long", "unsigned long long", "uintmax_t")]
+            rep.ob("R3", "%s tests the full unsigned magnitude in `%s`" % (fn, lab), not bad,
+                   "the 64-bit accumulator is cast to %s before the comparison" % bad, loc=F.loc(atom), site="%s/unsigned-compare/%s" % (fn, lab))
     # R4: every digit accumulation in the library
     n = 0
     for F in sorted(P.functions.values(), key=lambda f: (f.file, f.line)):
@@ -455,13 +479,13 @@ def rule_R5(P, rep):
             continue
         rn = D.nodes[D.strip(rh)]
         ln = D.nodes[D.strip(lh)]
-        if rn.get("k") == "un" and rn["op"] == "*" and D.nodes[D.strip(rn["e"])].get("n") == PP and ln.get("k") == "ref":
+        if _deref_of(D, rn, PP) and ln.get("k") == "ref":
             curs.add(ln["n"])
     for nd in D.nodes:      # ... or initialised from it in its declaration
         if nd and nd.get("k") == "decl":
             for v in nd["vars"]:
                 rn = D.nodes[D.strip(v["init"])] if v.get("init") is not None else {}
-                if rn.get("k") == "un" and rn["op"] == "*" and D.nodes[D.strip(rn["e"])].get("n") == PP:
+                if _deref_of(D, rn, PP):
                     curs.add(v["n"])
     rep.need(len(curs) == 1, "hashtable_delete: cursors loaded through the link pointer: %s" % sorted(curs))
     CUR = sorted(curs)[0]
@@ -580,6 +604,13 @@ def rule_R7(P, rep):
     rep.need(n >= 8, "only %d type-limit bounds found" % n)
 
 
+def _deref_of(F, nd, var):
+    """`*var`, also after abtverif/normalize.py replaced it by the lvalue the temporary points to."""
+    if nd.get("via_temp") == var:
+        return True
+    return nd.get("k") == "un" and nd["op"] == "*" and F.nodes[F.strip(nd["e"])].get("n") == var
+
+
 def rule_R8(P, rep):
     n = 0
     for F in sorted(P.functions.values(), key=lambda f: (f.file, f.line)):
@@ -587,16 +618,22 @@ def rule_R8(P, rep):
             continue
         bits = {"size_t": 64, "uint64_t": 64, "uint32_t": 32, "int": 32, "unsigned int": 32}.get(F.ret.strip())
         rep.need(bits, "%s returns %s" % (F.name, F.ret))
+        # the shift count is advanced only while it is below the last bit position: the governing `<var> < K`
+        # (K folded through const locals, any loop form, also as an operand of &&)
+        from abtverif import ctrldep
         bounds = []
-        for bid, B in F.blocks.items():
-            if B.tc is None or B.tk not in ("ForStmt", "WhileStmt", "DoStmt"):
+        for _b, i, lh, rh in F.stores():
+            nd = F.nodes[i]
+            inc = (nd.get("k") == "un" and nd["op"] in ("post++", "pre++")) or \
+                  (nd.get("k") == "bin" and nd.get("op") == "+=" and F.nodes[F.strip(nd["rh"])].get("cv") == 1)
+            var = F.nodes[F.strip(lh)]
+            if not inc or var.get("k") != "ref":
                 continue
-            aj, at = cfg.cond_atom(F, B.tc, True)
-            nd = F.nodes[F.strip(aj)]
-            if nd.get("k") == "bin" and nd["op"] in ("<", "<="):
-                cv = F.nodes[F.strip(nd["rh"])].get("cv")
-                if cv is not None:
-                    bounds.append(cv + (1 if nd["op"] == "<=" else 0))
+            for lab, val, _a in ctrldep.conditions(F, i):
+                m = re.match(r"^(\w+) (<|<=) (\d+)$", lab)
+                if m and m.group(1) == var["n"] and val is not False:
+                    bounds.append(int(m.group(3)) + (1 if m.group(2) == "<=" else 0))
+        bounds = sorted(set(bounds))
         n += 1
         rep.ob("R8", "%s scans all %d bit positions of its type" % (F.name, bits), bounds == [bits - 1],
                "loop bound(s) %s, expected %d" % (bounds, bits - 1), loc="%s:%d" % (F.file, F.line), site="%s/bits" % F.name)
@@ -627,6 +664,34 @@ def rule_R9(P, rep):
         rep.need(n >= 2, "%s: %d paths" % (fn, n))
 
 
+def rule_R10(P, rep):
+    """Appending to a collision chain: the link that is written is the one that was just seen to be NULL."""
+    from abtverif import ctrldep
+    F = P.fn("ABTU_hashtable_set", "src/util/hashtable.c")
+    n = 0
+    for _b, i, lh, rh in F.stores():
+        if rh is None or F.field_of(lh) != ("ABTU_hashtable_element", "p_next"):
+            continue
+        if F.nodes[F.strip(rh)].get("cv") == 0:
+            continue
+        base = common.copy_root(F, F.base_var(lh), i)
+        tested = []
+        for a, _k in ctrldep.closure(F, F.block_of(i)):
+            tc = F.blocks[a].tc
+            if tc is None:
+                continue
+            for leaf in ctrldep._operands(F, tc):
+                for j in F.descendants(leaf):
+                    nd = F.nodes[j]
+                    if nd.get("k") == "mem" and nd.get("r") == "ABTU_hashtable_element" and nd.get("f") == "p_next":
+                        tested.append(common.copy_root(F, F.base_var(j), j))
+        n += 1
+        rep.ob("R10", "ABTU_hashtable_set links a new element behind the element whose p_next it found empty", base in tested,
+               "the store goes to %s->p_next but the emptiness test looked at %s->p_next: a longer chain loses the elements "
+               "behind %s" % (base, sorted(set(t for t in tested if t)), base), loc=F.loc(i), site="hashtable_set/append")
+    rep.need(n >= 1, "ABTU_hashtable_set never links a new element")
+
+
 def run(P, rep, tier):
     rule_R1(P, rep)
     rule_R2(P, rep)
@@ -636,3 +701,4 @@ def run(P, rep, tier):
     rule_R7(P, rep)
     rule_R8(P, rep)
     rule_R9(P, rep)
+    rule_R10(P, rep)
